@@ -2,7 +2,7 @@ SPECIFICATION Spec
 CONSTANTS
   MaxStops = 3
   MaxBps = 1
-  ProgNames = {"P1", "P2", "P3", "P4", "P5"}
+  ProgNames = {"P1", "P2", "P3", "P4", "P5", "P6"}
   Emit = FALSE
 INVARIANTS
   DevReport
